@@ -5,9 +5,11 @@ package pc41
 import (
 	"bytes"
 	"errors"
+	"flag"
 	"fmt"
 	"io"
 	"runtime"
+	"strconv"
 	"sync"
 	"sync/atomic"
 	"testing"
@@ -512,8 +514,11 @@ func c41RunOnce(c c41Case, r *evid.Rec) []evid.Disc {
 	return e.ds
 }
 
+var c41Cases int
+
 func c41Check(c c41Case, r *evid.Rec) []evid.Disc {
 	c = c41Norm(c)
+	c41Cases++
 	reps := 1
 	if evid.ReplayMode() {
 		reps = 25 // the schedule is not part of the artefact: give a saved case several schedules
@@ -535,13 +540,14 @@ func c41Gen(rt *rapid.T) c41Case {
 	c.G = rapid.IntRange(1, 16).Draw(rt, "goroutines")
 	c.Hold = rapid.IntRange(1, 4).Draw(rt, "hold")
 	c.Big = rapid.SampledFrom([]int{80, 5000, 5000, 65536, 262144}).Draw(rt, "big")
-	// budget: total steps per case, smaller when single writes are large
+	// budget: total steps per case, smaller when single writes are large. Under the race detector (thorough tier) the
+	// cost of a step is proportional to the bytes it touches (~1-3 ms per step with 64-256 KiB writes), so only the
+	// budget of the small-write cases is raised there.
 	budget := 48000
 	if c.Big > 5000 || c.Max > 5000 {
 		budget = 8000
-	}
-	if evid.Thorough() {
-		budget *= 6
+	} else if evid.Thorough() {
+		budget = 200000
 	}
 	hi := budget / c.G
 	if hi > 100000 {
@@ -570,4 +576,10 @@ func TestC41(t *testing.T) {
 		r.Assume("thorough tier is built with -race: a data race on a pooled buffer fails the run even where the explicit oracle did not fire")
 	}
 	evid.Run(t, r, c41Gen, c41Check)
+	// rapid stops generating silently when the test deadline comes close: that is a time-budget hit, not a verdict
+	if f := flag.Lookup("rapid.checks"); f != nil && !evid.ReplayMode() && r.FailCount() == 0 {
+		if want, err := strconv.Atoi(f.Value.String()); err == nil && c41Cases < want {
+			r.Inconclusive(fmt.Sprintf("rapid stopped early at the test deadline after %d of %d cases", c41Cases, want))
+		}
+	}
 }
